@@ -120,7 +120,12 @@ def check(case, rec):
         Y = gmap(P); detJ = abs(numpy.linalg.det(gjac(P)))
         want_int = float((f(Y) * detJ) @ W)
         trimmed = any(a[0] == 'trim' for a in applied)      # a trimmed topology covers a polygonal part of the box: the pointwise identities, unit outward normals and the divergence theorem still hold on it
-        got_int = float(topo.integrate(f.nutils(geom) * function.J(geom), degree=14)) if not trimmed else want_int
+        # simplex Gauss schemes have a documented maximum degree (6 on triangles, 7 on tetrahedra): beyond it integration is approximate by design
+        gdeg_ = {'identity': 1, 'affine': 1, 'quadratic': 2}[r['geom']['kind']]
+        need = f.degree * gdeg_ + d * (gdeg_ - 1)
+        beyond = (r['kind'] in ('tri', 'mixed') and need > 6) or (r['kind'] == 'simplex3' and need > 7)
+        if beyond: rec.label('integral-beyond-simplex-scheme-maximum')
+        got_int = float(topo.integrate(f.nutils(geom) * function.J(geom), degree=14)) if not trimmed and not beyond else want_int
         if trimmed: rec.label('trimmed')
         if abs(got_int - want_int) > (1e-10 if case.get('gbasis') is None else 1e-7) * (1 + abs(want_int)):      # a projected geometry carries the tolerance of the projection solve
             raise Violation('integral', f'{what}: integral of f J = {got_int!r}, independent quadrature over the unit box {want_int!r}', where='integral:' + r['kind'] + ':' + r['geom']['kind'])
